@@ -171,7 +171,9 @@ func PreflightTable(fl Flavour) []Scn {
 		func(p *PObj) { p.NS = "ns1" },
 	}
 	for _, mode := range []string{"reconcile", "teardown"} {
-		for _, class := range []string{"", "default"} {
+		// the phase reconcilers are only ever called with Class "" (delegated phases never reach
+		// ReconcilePhase in the ObjectSet controller; GetPhase() of the phase adapters drops the class)
+		for _, class := range []string{""} {
 			for pos := 0; pos < 3; pos++ {
 				for vi, v := range viol {
 					for _, present := range []bool{false, true} {
@@ -212,9 +214,6 @@ func Random(r *rand.Rand, fl Flavour) Scn {
 		s.Owner.PkgLabel = pick(r, []string{"pkg-a", "package-operator"})
 	}
 	s.Force = r.Intn(12) == 0
-	if r.Intn(6) == 0 {
-		s.Class = "default"
-	}
 	switch r.Intn(6) {
 	case 0:
 		s.Prev = nil
